@@ -21,6 +21,8 @@ func init() {
 		commandTextCases(c)
 		rerunCases(c)
 		conditionHistoryCases(c)
+		blankCommandCases(c)
+		timedOrderCases(c)
 	}
 	props["C07"] = func(c *Collector, tier string, seed int64) {
 		runRunnerProp(c, "C07", tier, seed)
@@ -625,6 +627,86 @@ func commandTextCases(col *Collector) {
 
 // the same Task value run again after a run that failed (a watcher re-runs its task, stages share a task): the
 // second run is judged on its own commands, not on what the first one left on the task
+// entries of the command list that do nothing (empty, blanks only, a comment, `:`) are commands like any other: the
+// ones declared after them still run, in every variation, and `after` follows
+func blankCommandCases(col *Collector) {
+	for _, blank := range []string{"", " ", "\t", "\n", "# nothing", ":", "true"} {
+		for pos := 0; pos < 3; pos++ {
+			for _, nvar := range []int{0, 2} {
+				trace := newTracePath()
+				t := task.NewTask()
+				t.Name = "blank"
+				var want []string
+				cmds := []string{fmt.Sprintf("echo c0$V >> %s", trace), fmt.Sprintf("echo c1$V >> %s", trace)}
+				t.Commands = append(append(append([]string{}, cmds[:pos]...), blank), cmds[pos:]...)
+				vs := []string{""}
+				if nvar > 0 {
+					vs = []string{"a", "b"}
+					t.Variations = []map[string]string{{"V": "a"}, {"V": "b"}}
+				}
+				for _, v := range vs {
+					want = append(want, "c0"+v, "c1"+v)
+				}
+				want = append(want, "after")
+				t.After = []string{fmt.Sprintf("echo after >> %s", trace)}
+				cs := Case{Replay: fmt.Sprintf("commands [c0, c1] with the do-nothing entry %q inserted at position %d, %d variations, after hook", blank, pos, nvar), Tags: []string{"command-text", "blank-entry"}, NonTrivial: true}
+				r, err := runner.NewTaskRunner()
+				if err != nil {
+					cs.Fail, cs.Sig = err.Error(), "runner-panic"
+					col.Add(cs)
+					continue
+				}
+				r.Stdout, r.Stderr = devNull{}, devNull{}
+				rerr := r.Run(t)
+				got := readTrace(trace)
+				os.Remove(trace)
+				cs.Impl = fmt.Sprintf("%s|err=%v", strings.Join(got, ","), rerr != nil)
+				if strings.Join(got, ",") != strings.Join(want, ",") || rerr != nil {
+					cs.Fail, cs.Sig = fmt.Sprintf("commands that ran: %v (error %v), the task definition prescribes %v and no error", got, rerr, want), "c06-trace"
+				}
+				col.Add(cs)
+			}
+		}
+	}
+}
+
+// with a timeout set, every command still gets the whole timeout: commands that each stay within it run to the end
+// although together they take longer (the C13 specifications "full-budget-each", here for the order of commands)
+func timedOrderCases(col *Collector) {
+	sl, q := timedCmd{"slow", 0}, timedCmd{"quick", 0}
+	for _, s := range []timedSpec{
+		{T: 800, before: []timedCmd{sl}, cmds: []timedCmd{sl, sl, sl}, after: []timedCmd{sl}},
+		{T: 800, before: []timedCmd{sl, sl, sl}, cmds: []timedCmd{q}, after: []timedCmd{q}},
+		{T: 800, cmds: []timedCmd{sl, q}, vcmds: [][]timedCmd{{sl, q}, {sl, q}, {sl, q}}, after: []timedCmd{sl, sl, sl}},
+	} {
+		s := s
+		timedCases(col, func(col *Collector) {
+			obs, _, err := runTimedSpec(s)
+			cs := Case{Replay: s.line() + " kinds=" + s.kinds(), Tags: []string{"timeout-order"}, NonTrivial: true}
+			var want []string
+			for i := range s.before {
+				want = append(want, fmt.Sprintf("b%d", i))
+			}
+			for v, vc := range s.variations() {
+				for j := range vc {
+					want = append(want, fmt.Sprintf("m%d.%d", v, j))
+				}
+			}
+			for i := range s.after {
+				want = append(want, fmt.Sprintf("a%d", i))
+			}
+			cs.Impl = obs.String()
+			switch {
+			case err != nil:
+				cs.Fail, cs.Sig = err.Error(), "c06-trace"
+			case strings.Join(obs.trace, ",") != strings.Join(want, ",") || obs.err:
+				cs.Fail, cs.Sig = fmt.Sprintf("commands that ran %v (error %v): every command stays within the timeout of %dms, all of %v must run", obs.trace, obs.err, s.T, want), "c06-trace"
+			}
+			col.Add(cs)
+		})
+	}
+}
+
 // a condition is evaluated for EVERY run: one runner, a guard (`test -f marker`) whose answer changes between the
 // runs - the same task again, and a second task with the same guard text
 func conditionHistoryCases(col *Collector) {
@@ -698,7 +780,7 @@ func statusHistoryCases(col *Collector) {
 		t.AllowFailure = allow
 		t.Condition = fmt.Sprintf("test ! -f %s", skip)
 		t.Commands = []string{fmt.Sprintf("echo c1 >> %s", trace), fmt.Sprintf("if [ -f %s ]; then exit 3; fi", fail), fmt.Sprintf("echo c3 >> %s", trace)}
-		cs := Case{Replay: fmt.Sprintf("one task run four times on one runner: second command exits 3 / succeeds / condition false / succeeds; allow_failure=%v", allow), Tags: []string{"status-history"}, NonTrivial: true}
+		cs := Case{Replay: fmt.Sprintf("one task run twelve times on one runner (fail = second command exits 3, skip = condition false): fail skip ok skip fail fail ok ok skip skip ok fail; allow_failure=%v", allow), Tags: []string{"status-history"}, NonTrivial: true}
 		r, err := runner.NewTaskRunner()
 		if err != nil {
 			cs.Fail, cs.Sig = err.Error(), "runner-panic"
@@ -707,7 +789,9 @@ func statusHistoryCases(col *Collector) {
 		}
 		r.Stdout, r.Stderr = devNull{}, devNull{}
 		var got, want []string
-		for i, mode := range []string{"fail", "ok", "skip", "ok"} {
+		prevExit := -1
+		// every ordered pair of outcomes occurs as two consecutive runs
+		for i, mode := range []string{"fail", "skip", "ok", "skip", "fail", "fail", "ok", "ok", "skip", "skip", "ok", "fail"} {
 			os.Remove(fail)
 			os.Remove(skip)
 			os.Remove(trace)
@@ -718,13 +802,15 @@ func statusHistoryCases(col *Collector) {
 				os.WriteFile(skip, nil, 0644)
 			}
 			err := r.Run(t)
+			lastExit := prevExit
 			got = append(got, fmt.Sprintf("%d:%s err=%v errored=%v skipped=%v exit=%d", i, strings.Join(readTrace(trace), ","), err != nil, t.Errored, t.Skipped, t.ExitCode))
+			prevExit = int(t.ExitCode)
 			switch {
 			case mode == "fail" && !allow:
 				want = append(want, fmt.Sprintf("%d:c1 err=true errored=true skipped=false exit=3", i))
 			case mode == "skip":
-				// a skipped run records no exit status: the field keeps what it held (0 after the successful run)
-				want = append(want, fmt.Sprintf("%d: err=false errored=false skipped=true exit=0", i))
+				// a skipped run records no exit status: the field keeps what it held
+				want = append(want, fmt.Sprintf("%d: err=false errored=false skipped=true exit=%d", i, lastExit))
 			default:
 				want = append(want, fmt.Sprintf("%d:c1,c3 err=false errored=false skipped=false exit=0", i))
 			}
